@@ -507,7 +507,8 @@ def plans(tier):
                 ("leafvar11", "1.1", "LeafVar", var, 3, ["1.1"]),
                 ("leafvarf10", "1.0", "LeafVarF", varf, 3, ["1.0"]),
                 ("leafvarf11", "1.1", "LeafVarF", varf, 3, ["1.1"]),
-                ("mid3", "1.0", "Mid3", ab, 4, ["1.0", "1.1"])]
+                ("mid3", "1.0", "Mid3", ab, 4, ["1.0", "1.1"]),
+                ("zero", "1.0", "Zero", abc, 3, ["1.0", "1.1"])]
     return [("depth1", "1.0", "Depth1", ab, 5, ["1.0", "1.1"]),
             ("depth2q", "1.0", "Depth2Q", ab, 5, ["1.0", "1.1"]),
             ("depth2", "1.0", "Depth2", ab, 4, ["1.0", "1.1"]),
@@ -516,7 +517,8 @@ def plans(tier):
             ("leafvar11", "1.1", "LeafVar", var, 4, ["1.1"]),
             ("leafvarf10", "1.0", "LeafVarF", varf, 3, ["1.0"]),
             ("leafvarf11", "1.1", "LeafVarF", varf, 3, ["1.1"]),
-            ("mid3", "1.0", "Mid3", ab, 4, ["1.0", "1.1"])]
+            ("mid3", "1.0", "Mid3", ab, 4, ["1.0", "1.1"]),
+            ("zero", "1.0", "Zero", abc, 3, ["1.0", "1.1"])]
 
 
 def run(ctx: Ctx, collect=None, only=None):
@@ -530,7 +532,9 @@ def run(ctx: Ctx, collect=None, only=None):
         jobs = []
         for i, (k, recs) in enumerate(sorted(words.items())):
             m = json.loads(k)
-            jobs.append((m, recs, cls[k], vers, "groupref" if i % 3 == 2 else "inline",
+            jobs.append((m, recs, cls[k], vers,
+                         ("mixed" if i % 2 else "inline") if scope == "zero" else
+                         "groupref" if i % 3 == 2 else "inline",
                          ctx.tier == "thorough" or i % 2 == 0))
         results = ctx.pmap(judge_model, jobs)
         st = {"models": len(jobs), "cases": 0, "outside_domain": 0, "refused": 0,
